@@ -329,6 +329,17 @@ func wireView(a *internalpb.Actor) map[string]any {
 		"role": a.GetRole(), "supervisor": sup, "reentrancy": reent, "init_timeout": init, "bytes": proto.Size(a)}
 }
 
+// twice runs a wire path and repeats it once (fresh actor name) when it fails, so that only a
+// failure that reproduces is recorded as the path's error.
+func twice(path func(attempt int) error) error {
+	err := path(0)
+	if err != nil {
+		time.Sleep(50 * time.Millisecond)
+		err = path(1)
+	}
+	return err
+}
+
 func freePort() int {
 	l, err := net.Listen("tcp", "127.0.0.1:0")
 	if err != nil {
@@ -403,7 +414,7 @@ func runSpawn(casesPath, tracePath string) {
 		if c.Relocatable {
 			line := map[string]any{"path": "relocate", "cfg": rawCases[i], "local": obsLocal, "err": ""}
 			var copyPID *actor.PID
-			err := func() error {
+			err := twice(func(attempt int) error {
 				record, err := actor.VerifToSerialize(local)
 				if err != nil {
 					return err
@@ -421,9 +432,9 @@ func runSpawn(casesPath, tracePath string) {
 				if err != nil {
 					return err
 				}
-				copyPID, err = sysB.Spawn(ctx, fmt.Sprintf("r%d", i), &probeActor{}, opts...)
+				copyPID, err = sysB.Spawn(ctx, fmt.Sprintf("r%d-%d", i, attempt), &probeActor{}, opts...)
 				return err
-			}()
+			})
 			if err != nil {
 				line["err"] = err.Error()
 				line["copy"] = obsLocal // placeholder, ignored when err is set
@@ -441,15 +452,18 @@ func runSpawn(casesPath, tracePath string) {
 
 		{
 			line := map[string]any{"path": "remote", "cfg": rawCases[i], "local": obsLocal, "err": "", "wire": map[string]any{}}
-			name := fmt.Sprintf("m%d", i)
 			var copyPID *actor.PID
-			_, err := sysA.Spawn(ctx, name, &probeActor{}, append(buildOptions(c), actor.WithHostAndPort("127.0.0.1", portB))...)
-			if err == nil {
-				copyPID, err = sysB.ActorOf(ctx, name)
-			}
-			if err == nil && !copyPID.IsLocal() {
-				err = fmt.Errorf("remote spawn: %s is not local to the hosting node", name)
-			}
+			err := twice(func(attempt int) error {
+				name := fmt.Sprintf("m%d-%d", i, attempt)
+				_, err := sysA.Spawn(ctx, name, &probeActor{}, append(buildOptions(c), actor.WithHostAndPort("127.0.0.1", portB))...)
+				if err == nil {
+					copyPID, err = sysB.ActorOf(ctx, name)
+				}
+				if err == nil && !copyPID.IsLocal() {
+					err = fmt.Errorf("remote spawn: %s is not local to the hosting node", name)
+				}
+				return err
+			})
 			if err != nil {
 				line["err"] = err.Error()
 				line["copy"] = obsLocal
@@ -473,15 +487,18 @@ func runSpawn(casesPath, tracePath string) {
 			}
 			obsChild := observe(localChild)
 			line["local"] = obsChild
-			name := fmt.Sprintf("mc%d", i)
 			var copyPID *actor.PID
-			_, err = parentRemote.SpawnChild(ctx, name, &probeActor{}, buildOptions(c)...)
-			if err == nil {
-				copyPID, err = sysB.ActorOf(ctx, name)
-			}
-			if err == nil && !copyPID.IsLocal() {
-				err = fmt.Errorf("remote child spawn: %s is not local to the hosting node", name)
-			}
+			err = twice(func(attempt int) error {
+				name := fmt.Sprintf("mc%d-%d", i, attempt)
+				_, err := parentRemote.SpawnChild(ctx, name, &probeActor{}, buildOptions(c)...)
+				if err == nil {
+					copyPID, err = sysB.ActorOf(ctx, name)
+				}
+				if err == nil && !copyPID.IsLocal() {
+					err = fmt.Errorf("remote child spawn: %s is not local to the hosting node", name)
+				}
+				return err
+			})
 			if err != nil {
 				line["err"] = err.Error()
 				line["copy"] = obsChild
